@@ -633,7 +633,7 @@ func (st *State) frameCheckMap(ins ssa.Instruction, m string) {
 }
 
 func (st *State) frameCheckEntry(ins ssa.Instruction, en modEntry, name string) {
-	if en.kind == "ghost" && en.name == "ghost_held" {
+	if en.kind == "ghost" && (en.name == "ghost_held" || en.name == "ghost_recvs") {
 		// lock state: callees are assumed to release what they acquire (not checked);
 		// it is exempt from frames so that locking does not have to be declared everywhere
 		return
